@@ -818,8 +818,12 @@ def evidence_dir():
 
 def finish(spec, st, R, wall, build_time, level="other"):
     EVD = evidence_dir()
+    seen_known = {}
     for k in R.known:
-        print("KNOWN-FINDING: property=%s %s" % (spec.ID, k.get("known") or k.get("obligation")))
+        txt = k.get("known") or k.get("obligation")
+        seen_known[txt] = seen_known.get(txt, 0) + 1
+    for txt, n in seen_known.items():       # one line per listed finding (n matching counterexamples)
+        print("KNOWN-FINDING: property=%s %s [%d matching counterexample(s)]" % (spec.ID, txt, n))
     rc = 0
     for n, v in enumerate(R.violations):
         path = os.path.join(EVD, "replay", "%s-%d.json" % (spec.ID, n))
